@@ -884,11 +884,37 @@ def normalise_loops(tree):
     return n
 
 
+def normalise_ifexp(tree):
+    """`x = A if C else B` is the same statement as `if C: x = A` / `else: x = B`; likewise `return A if C else B`.
+    The statement form gives every path-based rule one path per arm."""
+    n = 0
+    for node in ast.walk(tree):
+        for field in ("body", "orelse", "finalbody"):
+            stmts = getattr(node, field, None)
+            if not isinstance(stmts, list) or not stmts or not isinstance(stmts[0], ast.stmt):
+                continue
+            for i, st in enumerate(stmts):
+                if isinstance(st, ast.Assign) and len(st.targets) == 1 and isinstance(st.targets[0], ast.Name) and isinstance(st.value, ast.IfExp):
+                    mk = lambda v, st=st: ast.copy_location(ast.Assign(targets=[ast.Name(id=st.targets[0].id, ctx=ast.Store())], value=v), st)
+                elif isinstance(st, ast.Return) and isinstance(st.value, ast.IfExp):
+                    mk = lambda v, st=st: ast.copy_location(ast.Return(value=v), st)
+                else:
+                    continue
+                ie = st.value
+                new = ast.copy_location(ast.If(test=ie.test, body=[mk(ie.body)], orelse=[mk(ie.orelse)]), st)
+                ast.fix_missing_locations(new)
+                stmts[i] = new
+                n += 1
+    return n
+
+
 # ------------------------------------------------------------------------------------------ entry point
 def normalise_program(trees):
     """trees: path -> ast.Module (mutated in place).  Returns {path: number of inlined call sites}."""
     for path, tree in trees.items():
         normalise_loops(tree)
+        while normalise_ifexp(tree):
+            pass
     inv = inventory()
     if not inv:
         return {}
